@@ -64,7 +64,14 @@ func (v *PointerSchema) process(ctx *p.SchemaCtx) {
 	if fn, ok := ctx.Data.(p.DpFactory); ok {
 		val, err := fn()
 		if err != nil {
-			ctx.AddIssue(subCtx.IssueFromUnknownError(err))
+			// the front end only knows the code and the cause: complete the issue so that it is formatted like any other
+			if err.Dtype == "" {
+				err.SetDType(subCtx.DType)
+			}
+			if err.Path == "" {
+				err.SetPath(ctx.Path.String())
+			}
+			ctx.AddIssue(err)
 			return
 		}
 		ctx.Data = val
